@@ -221,7 +221,7 @@ Ltac c8 := idtac; first [ c7 | lazymatch goal with
 (* ---------- the re-entrant methods ---------- *)
 (* what a continuation needs on entry: the invariant; inside the window a dead and drained state (except stop()
    itself, which makes it so); a block is handed on only with no processor result pending and a block in progress *)
-Definition loop_ok (s : state) : Prop := dead s = false -> s_proc s = None /\ is_some (s_mblock s) = true.
+Definition loop_ok (s : state) : Prop := dead s || (negb (is_some (s_proc s)) && is_some (s_mblock s)) = true.
 Definition PreD (k : kont) (d : bool * bool) (w : option (Z * Z)) (g : gpw) (s : state) : Prop :=
   match k with
   | KStop => g = pw_abs w s /\ PInv d w s /\ (is_some w = true -> s_proc s = None)
@@ -266,7 +266,7 @@ Proof.
   - intros r g' s' [-> [H | (E & _)]]; [split; auto | discriminate E].
 Qed.
 
-Ltac lsolve := unfold loop_ok; intro; psolve.
+Ltac lsolve := unfold loop_ok in *; psolve.
 Ltac wcond := first [ assumption | solve [intro; discriminate] | solve [cbn; intros; congruence] | solve [psolve]
   | solve [ let H := fresh "Hw" in intro H;
             repeat match goal with W : is_some _ = true -> _ |- _ => specialize (W H) end; psolve ] ].
@@ -295,6 +295,6 @@ Proof.
   - p_walk c9. all: try (apply IH; [solve [psolve] | wcond]). all: p_done.
 Qed.
 (* the end of a block: the parked reply, if any, is handled next *)
-Lemma p_finish_block d w s : PInv d w s -> (is_some w = true -> snd d = true) -> (dead s = false -> s_proc s = None) ->
+Lemma p_finish_block d w s : PInv d w s -> (is_some w = true -> snd d = true) -> dead s || negb (is_some (s_proc s)) = true ->
   ww (finish_block rec) (PQ d w) (pw_abs w s) s.
-Proof. intros K W N. unfold finish_block. p_walk c9. all: p_done. Show. Qed.
+Proof. intros K W N. unfold finish_block. p_walk c9. all: p_done. Qed.
